@@ -60,7 +60,7 @@ func (r *ruleImpl) Execute(ctx heimdall.Context) (rule.Backend, error) {
 		// unescape path
 		request.URL.RawPath = ""
 	case config.EncodedSlashesOff:
-		if strings.Contains(request.URL.RawPath, "%2F") {
+		if containsEncodedSlash(request.URL.RawPath) {
 			return nil, errorchain.NewWithMessage(heimdall.ErrArgument,
 				"path contains encoded slash, which is not allowed")
 		}
@@ -153,6 +153,17 @@ type backend struct {
 
 func (b *backend) URL() *url.URL { return b.targetURL }
 
+// encodedSlashProtector replaces both spellings of an encoded slash by a placeholder.
+//
+//nolint:gochecknoglobals
+var encodedSlashProtector = strings.NewReplacer("%2F", "$$$escaped-slash$$$", "%2f", "$$$escaped-slash$$$")
+
+// containsEncodedSlash reports whether path contains a percent-encoded slash.
+// Hex digits of percent-encoded octets are case-insensitive (RFC 3986, section 2.1).
+func containsEncodedSlash(path string) bool {
+	return strings.Contains(path, "%2F") || strings.Contains(path, "%2f")
+}
+
 func unescape(value string, handling config.EncodedSlashesHandling) string {
 	if handling == config.EncodedSlashesOn {
 		unescaped, _ := url.PathUnescape(value)
@@ -160,7 +171,7 @@ func unescape(value string, handling config.EncodedSlashesHandling) string {
 		return unescaped
 	}
 
-	unescaped, _ := url.PathUnescape(strings.ReplaceAll(value, "%2F", "$$$escaped-slash$$$"))
+	unescaped, _ := url.PathUnescape(encodedSlashProtector.Replace(value))
 
 	return strings.ReplaceAll(unescaped, "$$$escaped-slash$$$", "%2F")
 }
